@@ -4,6 +4,7 @@ import (
 	"fmt"
 	"strings"
 	"testing"
+	"time"
 
 	"github.com/sanonone/kektordb/internal/zzverif/vexec"
 	"github.com/sanonone/kektordb/internal/zzverif/vkit"
@@ -98,6 +99,73 @@ func TestVerifC10Engine(t *testing.T) {
 				ctx.Distinct(key)
 			}
 			ctx.Sample("history", 2, cs.Ops()[:min(len(cs.Ops()), 30)])
+		})
+		// A real retention window: versions soft-deleted before now-R are pruned, those
+		// soft-deleted inside the window must stay queryable as-of, live and after every kind
+		// of restart (the log carries the prune).
+		ctx.Group("retention", ctx.N(32, 400), func(cs *vkit.Case) {
+			x := vexec.NewExec(cs, cs.SubDir("data"))
+			defer func() {
+				if x.E != nil {
+					x.E.Close()
+				}
+			}()
+			r := cs.R
+			ix := "g"
+			ret := time.Duration(vkit.Pick(r, []int{150, 250, 400})) * time.Millisecond
+			mc := hnsw.DefaultMaintenanceConfig()
+			mc.GraphRetention = hnsw.Duration(ret)
+			x.VCreate(vexec.IndexCfg{Name: ix, Metric: distance.Euclidean, Prec: distance.Float32, M: 4, EfC: 8, Maint: &mc})
+			nodes := []string{"a", "b", "c", "d"}
+			phase := func(n int) {
+				for i := 0; i < n; i++ {
+					src, tgt, rel := vkit.Pick(r, nodes), vkit.Pick(r, nodes), vkit.Pick(r, []string{"r", "s"})
+					inv := ""
+					if r.Chance(0.3) {
+						inv = "inv_" + rel
+					}
+					switch p := r.Intn(100); {
+					case p < 50:
+						var props map[string]any
+						if r.Chance(0.5) {
+							props = map[string]any{"k": vkit.Pick(r, []string{"v1", "v2"})}
+						}
+						x.VLink(ix, src, tgt, rel, inv, float32(r.Intn(3)), props)
+					case p < 90:
+						x.VUnlink(ix, src, tgt, rel, inv, false)
+					default:
+						x.VUnlink(ix, src, tgt, rel, inv, true)
+					}
+				}
+			}
+			phase(r.Range(6, 14))
+			x.Settle()
+			time.Sleep(ret + 120*time.Millisecond)
+			phase(r.Range(4, 10))
+			before := len(x.M.Stamps())
+			if !x.GraphVacuumWindow() {
+				ctx.Count("retention.ambiguous_cutoff", 1)
+				return
+			}
+			ctx.Count("retention.stamps_pruned", int64(before-len(x.M.Stamps())))
+			ctx.Count("views_checked", int64(c10Views(cs, x, "after windowed vacuum")))
+			how := cs.Idx % 3
+			switch how {
+			case 0:
+				c01Restart(ctx, cs, x, "plain restart after windowed vacuum")
+			case 1:
+				x.RewriteAOF()
+				c01Restart(ctx, cs, x, "compaction + restart after windowed vacuum")
+			case 2:
+				x.SaveSnapshot()
+				c01Restart(ctx, cs, x, "snapshot + restart after windowed vacuum")
+			}
+			ctx.Count("views_checked", int64(c10Views(cs, x, "after restart")))
+			phase(3)
+			c01Restart(ctx, cs, x, "second restart")
+			ctx.Count("views_checked", int64(c10Views(cs, x, "after second restart")))
+			ctx.Eval(1)
+			ctx.Distinct(fmt.Sprintf("retention/%v/how%d/%s", ret, how, x.KindKey()))
 		})
 	})
 }
